@@ -54,6 +54,8 @@ inductive Kind
   | tableVector (t : Nat)                   -- flatcc_verify_table_vector_field
   | union (u : Nat)                         -- flatcc_verify_union_field
   | unionVector (u : Nat)                   -- flatcc_verify_union_vector_field
+  | nestedTable (t align : Nat)             -- flatcc_verify_table_as_nested_root (`align` = the argument the generated call passes)
+  | nestedStruct (size align : Nat)         -- flatcc_verify_struct_as_nested_root
   deriving Repr
 
 structure Field where
@@ -87,12 +89,15 @@ def checkHeader (e base offset : Nat) : Bool :=
   let k := w32 (base + offset)
   decide (k > base) && decide (k + 4 ≤ e) && decide (k % 4 = 0)
 
-/-- `verify_struct(end, base, offset, size, align)` (alignment is relative to the buffer start) -/
-def verifyStruct (e base offset size align : Nat) : V Unit :=
+/-- `verify_struct(buf, end, base, offset, size, align)`: alignment of the *absolute address* (low 32 bits, as the C code computes it) -/
+def verifyStruct (c : Ctx) (e base offset size align : Nat) : V Unit :=
   guard' (!(decide (offset = 0) || decide (base > e) || decide (offset > e - base))) >>= fun _ =>
   guard' (decide (w32 (base + offset + size) ≥ base + offset)) >>= fun _ =>
   guard' (decide (w32 (base + offset + size) ≤ e)) >>= fun _ =>
-  guard' (decide ((base + offset) % align = 0))
+  guard' (decide (w32 (w32 c.A + w32 (base + offset)) % align = 0))
+
+/-- a nested buffer as the verifier sees it: its own byte 0, size and address (`buf`, `bufsiz` of the nested-root functions) -/
+def sub (c : Ctx) (s len : Nat) : Ctx := { buf := fun i => c.buf (s + i), n := len, A := c.A + s }
 
 /-- `read_vt_entry(td, id)` -/
 def readVtEntry (c : Ctx) (td : TD) (id : Nat) : V Nat :=
@@ -130,7 +135,8 @@ def verifyVector (c : Ctx) (base offset esz align maxc : Nat) : V Nat :=
   rd32 c (w32 (base + offset)) >>= fun n =>
   let b := w32 (w32 (base + offset) + 4)
   let al := if n = 0 then 4 else align
-  guard' (decide (b % al = 0) && decide (b % 4 = 0)) >>= fun _ =>
+  -- alignment of the absolute address `(uoffset_t)(size_t)buf + base`
+  guard' (decide (w32 (w32 c.A + b) % al = 0) && decide (w32 (w32 c.A + b) % 4 = 0)) >>= fun _ =>
   guard' (decide (n ≤ maxc)) >>= fun _ =>
   guard' (decide (sub32 c.n b ≥ w32 (n * esz))) >>= fun _ =>
   pure n
@@ -148,6 +154,14 @@ def verifyStringVector (c : Ctx) (base offset : Nat) : V Unit :=
   verifyStrings c n (w32 (w32 (base + offset) + 4))
 
 def countMax (esz : Nat) : Nat := 4294967295 / esz
+
+/-- `flatcc_verify_buffer_header(buf, bufsiz, fid)` with `fid` already converted to its hash (0 = none) -/
+def verifyHeader (c : Ctx) (idHash : Nat) : V Unit :=
+  guard' (decide (c.A % 4 = 0)) >>= fun _ =>
+  guard' (decide (c.n ≤ 4294967295 - 8)) >>= fun _ =>
+  guard' (decide (c.n ≥ 8)) >>= fun _ =>
+  if idHash = 0 then pure () else
+  rd32 c 4 >>= fun id => guard' (decide (id = idHash))
 
 mutual
 /-- `verify_table(buf, end, base, offset, ttl, tvf)` with `tvf` = the call list of table `t` -/
@@ -177,8 +191,17 @@ termination_by fuel _ _ _ _ => (fuel, 0, 0)
 def verifyMember (S : Schema) (c : Ctx) (fuel : Nat) (base offset : Nat) (ttl : Int) : Option Member → V Unit
   | none => .ok ()
   | some (.table t) => verifyTable S c fuel base offset ttl t
-  | some (.struct size align) => verifyStruct c.n base offset size align
+  | some (.struct size align) => verifyStruct c c.n base offset size align
   | some .string => verifyString c base offset
+
+termination_by (fuel, 1, 0)
+
+/-- the tail of `flatcc_verify_table_as_nested_root`: the nested bytes `[s, s+len)` are verified as a buffer of their own
+(`buf` = their first byte, `bufsiz` = `len`), no identifier requested, with the caller's remaining budget -/
+def verifyNestedTable (S : Schema) (c : Ctx) (fuel : Nat) (s len : Nat) (ttl : Int) (t : Nat) : V Unit :=
+  verifyHeader (sub c s len) 0 >>= fun _ =>
+  rd32 (sub c s len) 0 >>= fun ro =>
+  verifyTable S (sub c s len) fuel 0 ro ttl t
 
 termination_by (fuel, 1, 0)
 
@@ -275,6 +298,26 @@ def verifyKind (S : Schema) (c : Ctx) (fuel : Nat) (td : TD) (f : Field) : V Uni
         verifyVector c b o 4 4 1073741823 >>= fun n =>
         guard' (decide (n = count)) >>= fun _ =>
         verifyUnions S c fuel (td.ttl - 1) u n (w32 (tb + to) + 4) (w32 (w32 (b + o) + 4))
+  | .nestedTable t align =>
+    -- flatcc_verify_table_as_nested_root(td, id, required, 0, align, tvf): the field as a ubyte vector, then its content as a buffer
+    getOffsetField c td f.id f.required >>= fun r =>
+    match r with
+    | none => pure ()
+    | some b =>
+      rd32 c b >>= fun o =>
+      verifyVector c b o 1 align 4294967295 >>= fun len =>
+      verifyNestedTable S c fuel (w32 (w32 (b + o) + 4)) len td.ttl t
+  | .nestedStruct size align =>
+    -- flatcc_verify_struct_as_nested_root(td, id, required, 0, size, align)
+    getOffsetField c td f.id f.required >>= fun r =>
+    match r with
+    | none => pure ()
+    | some b =>
+      rd32 c b >>= fun o =>
+      verifyVector c b o 1 align 4294967295 >>= fun len =>
+      verifyHeader (sub c (w32 (w32 (b + o) + 4)) len) 0 >>= fun _ =>
+      rd32 (sub c (w32 (w32 (b + o) + 4)) len) 0 >>= fun ro =>
+      verifyStruct (sub c (w32 (w32 (b + o) + 4)) len) len 0 ro size align
 
 termination_by (fuel, 3, 0)
 
@@ -283,14 +326,6 @@ def verifyFields (S : Schema) (c : Ctx) : Nat → TD → List Field → V Unit
   | fuel, td, f :: fs => verifyKind S c fuel td f >>= fun _ => verifyFields S c fuel td fs
 termination_by fuel _ fs => (fuel, 4, fs.length)
 end
-
-/-- `flatcc_verify_buffer_header(buf, bufsiz, fid)` with `fid` already converted to its hash (0 = none) -/
-def verifyHeader (c : Ctx) (idHash : Nat) : V Unit :=
-  guard' (decide (c.A % 4 = 0)) >>= fun _ =>
-  guard' (decide (c.n ≤ 4294967295 - 8)) >>= fun _ =>
-  guard' (decide (c.n ≥ 8)) >>= fun _ =>
-  if idHash = 0 then pure () else
-  rd32 c 4 >>= fun id => guard' (decide (id = idHash))
 
 /-- `flatbuffers_type_hash_from_string(fid)`: a NUL-terminated identifier string, at most 4 bytes are used -/
 def hashFromString (b : List Nat) : Nat :=
@@ -322,7 +357,7 @@ def verifyTableAsRoot (S : Schema) (c : Ctx) (idHash : Nat) (t : Nat) : V Unit :
 def verifyStructAsRoot (c : Ctx) (idHash : Nat) (size align : Nat) : V Unit :=
   verifyHeader c idHash >>= fun _ =>
   rd32 c 0 >>= fun o =>
-  verifyStruct c.n 0 o size align
+  verifyStruct c c.n 0 o size align
 
 /-- `flatcc_verify_table_as_root_with_size` / `_as_typed_root_with_size` -/
 def verifyTableAsRootWithSize (S : Schema) (c : Ctx) (idHash : Nat) (t : Nat) : V Unit :=
@@ -334,6 +369,6 @@ def verifyTableAsRootWithSize (S : Schema) (c : Ctx) (idHash : Nat) (t : Nat) : 
 def verifyStructAsRootWithSize (c : Ctx) (idHash : Nat) (size align : Nat) : V Unit :=
   verifyHeaderWithSize c idHash >>= fun n' =>
   rd32 c 4 >>= fun o =>
-  verifyStruct n' 4 o size align
+  verifyStruct c n' 4 o size align
 
 end Flatcc.Verifier
